@@ -13,6 +13,8 @@ fn inputs(n: usize, seed: u64) -> Vec<(&'static str, Vec<f64>, f64)> {
         ("ramp", (0..n).map(|i| (i + 1) as f64).collect(), 0.0),
         ("int", (0..n).map(|_| rng.gen_range(0..1000) as f64).collect(), 0.0),
         ("real", (0..n).map(|_| rng.gen::<f64>() * 1e3).collect(), 1e-12),
+        // mostly zeros, some negative: sums that cancel or stay zero must come out as such
+        ("sparse", (0..n).map(|i| match i % 4 { 0 => (i + 1) as f64, 2 => -((i / 2) as f64), _ => 0.0 }).collect(), 0.0),
     ]
 }
 
